@@ -9,6 +9,7 @@ import Orda.Proofs.ProtocolJoin
 import Orda.Proofs.ProtoNet
 import Orda.Proofs.ServerRefine
 import Orda.Proofs.ServerRefineJoin
+import Orda.Proofs.FullNet
 namespace Orda.Props.C07
 open Orda
 
@@ -160,5 +161,65 @@ theorem store_server_never_refuses_a_retry_with_late_joiners {tg : TargetJ} {cui
     (hv : cd.typ ≠ 2) (hp : PackOfJ tg r p) :
     (processPack T.st cd tg.col p).resp.error = false :=
   store_never_refuses_join g0 h0 run hex hr hk hi hcu hv hp
+
+/-! ## The WHOLE executable model — wired clients (Model/Wired: `createPack`, `applyPack`) + store-level server (Model/Server:
+`processPack`) + replicas — under the adversarial network (Proofs/FullNet): every run is a `PNet` run, hence the convergence theorems -/
+
+open Orda.PNet Orda.SRef Orda.FullNet in
+/-- every run of the full system (calls on the wired clients' replicas, `createPack` requests, ANY request ever sent served by
+    `processPack` any number of times, ANY response ever produced — error packs included — applied by `applyPack` late, repeatedly
+    or never, foreign traffic and bookkeeping in between) is matched step by step by the protocol system with real replicas -/
+theorem full_system_runs_are_protocol_runs {typ : DtType} {tg : Target} {cuids : List String} {F0 F : FSys} {S0 : RSys}
+    (h0 : Rel tg F0 S0) (hr0 : RReach typ cuids S0) (run : FRun typ tg F0 F) :
+    ∃ S, Rel tg F S ∧ RReach typ cuids S :=
+  full_run_simulates_pnet h0 hr0 run
+
+open Orda.PNet Orda.SRef Orda.FullNet in
+/-- the start: subscribed wired clients on fresh replicas, the datatype existing with an empty log -/
+theorem full_system_initial_state_is_related (typ : DtType) {tg : Target} {st0 : Store} {cds : List ClientDoc}
+    (g : SRef.Good tg ⟨st0, [], [], []⟩) (hl : absLog st0 tg.duid = []) (hc : absCps st0 tg.duid = [])
+    (hv : ∀ cd ∈ cds, cd.typ ≠ 2) :
+    Rel tg (FSys.init typ tg st0 cds) (RSys.init typ (cds.map (·.cuid))) :=
+  rel_init typ g hl hc hv
+
+open Orda.PNet Orda.SRef Orda.FullNet in
+/-- LISTS, full system: whatever was lost, repeated or delayed, once every wired client stands at the end of the STORE's log with
+    everything acknowledged, all of them hold the same list state -/
+theorem full_system_faults_never_break_list_convergence {tg : Target} {cuids : List String} {F0 F : FSys} {S0 : RSys}
+    (h0 : Rel tg F0 S0) (hr0 : RReach .list cuids S0) (run : FRun .list tg F0 F) (hq : FQuiescent tg F)
+    (i j : Nat) (hi : i < F.clients.length) (hj : j < F.clients.length) :
+    (F.clients[i]).2.rep.state = (F.clients[j]).2.rep.state :=
+  full_quiescent_converged_list h0 hr0 run hq i j hi hj
+
+open Orda.PNet Orda.SRef Orda.FullNet in
+/-- COUNTERS, full system -/
+theorem full_system_faults_never_break_counter_convergence {tg : Target} {cuids : List String} {F0 F : FSys} {S0 : RSys}
+    (h0 : Rel tg F0 S0) (hr0 : RReach .counter cuids S0) (run : FRun .counter tg F0 F) (hq : FQuiescent tg F)
+    (i j : Nat) (hi : i < F.clients.length) (hj : j < F.clients.length) :
+    (F.clients[i]).2.rep.state = (F.clients[j]).2.rep.state :=
+  full_quiescent_converged_counter h0 hr0 run hq i j hi hj
+
+open Orda.PNet Orda.SRef Orda.FullNet in
+/-- MAPS, full system: all wired clients answer every read alike -/
+theorem full_system_faults_never_break_map_convergence {tg : Target} {cuids : List String} {F0 F : FSys} {S0 : RSys}
+    (h0 : Rel tg F0 S0) (hr0 : RReach .map cuids S0) (run : FRun .map tg F0 F) (hq : FQuiescent tg F)
+    (i j : Nat) (hi : i < F.clients.length) (hj : j < F.clients.length) (mi mj : LwwMap)
+    (hsi : (F.clients[i]).2.rep.state = .map mi) (hsj : (F.clients[j]).2.rep.state = .map mj) : SameReads mi mj :=
+  full_quiescent_converged_map h0 hr0 run hq i j hi hj mi mj hsi hsj
+
+open Orda.PNet Orda.SRef Orda.FullNet in
+/-- DOCUMENTS, full system: all wired clients hold `ASim`-equal documents with one JSON value -/
+theorem full_system_faults_never_break_document_convergence {tg : Target} {cuids : List String} {F0 F : FSys} {S0 : RSys}
+    (h0 : Rel tg F0 S0) (hr0 : RReach .document cuids S0) (run : FRun .document tg F0 F) (hq : FQuiescent tg F)
+    (i j : Nat) (hi : i < F.clients.length) (hj : j < F.clients.length) (di dj : Doc)
+    (hsi : (F.clients[i]).2.rep.state = .doc di) (hsj : (F.clients[j]).2.rep.state = .doc dj) :
+    DA.ASim di dj ∧ di.view.canon = dj.view.canon :=
+  full_quiescent_converged_document h0 hr0 run hq i j hi hj di dj hsi hsj
+
+open Orda.FullNet in
+/-- an error pack changes nothing in the wired datatype: the error handler is called, that is all -/
+theorem error_pack_is_invisible_to_the_datatype (w : WDt) (p : Pack) (h : p.error = true) :
+    (w.applyPack p).1 = w ∧ (w.applyPack p).2.2 = none ∧ ∃ c, (w.applyPack p).2.1 = [.errors [c]] :=
+  applyPack_error_is_stutter w p h
 
 end Orda.Props.C07
